@@ -331,6 +331,11 @@ Attribution(r) ==
         THEN {"Dev_QueryDecodeReplaces"} ELSE {})
   \* (trigger AND the observed result is what Level I -- which contains the deviation -- predicts)
   \cup (IF Trig_BracketedNonIPv6(r) /\ Agreement(r) = "agree" THEN {"Dev_BracketedNonIPv6LosesBrackets"} ELSE {})
+  \* Dev_MultiDictUpdateIndexShift: the faithful and the intended drop-tails loop give different queries for this receiver
+  \* and argument (trigger), and the observed result is the faithful one
+  \cup (IF r.act = "update_query" /\ Has_(r, "self") /\ Ok(r.self.val) /\ "be" \in DOMAIN r /\ Agreement(r) = "agree"
+           /\ UpdateQueryWith(TRUE, r.be, Five(r.self), r.args.q) # UpdateQueryWith(FALSE, r.be, Five(r.self), r.args.q)
+        THEN {"Dev_MultiDictUpdateIndexShift"} ELSE {})
 
 \* accessor level: the fields of an observation that differ from what Level I derives from the five parts
 \* (objects whose authority was parsed EAGERLY by the constructor may differ for an empty host: Dev_EmptyHost)
